@@ -20,6 +20,9 @@ For every generated grammar G and every transformation T offered as equivalence-
                          strongly connected components sources first, computes the closures with its `_closure` and the rules;
                          compared with tolerance where the real arithmetic is floating point.  The driver also evaluates the
                          hypotheses of `ucycle_no_unary_cycle_graph` / `hasUnaryCycle_graph` on the case.
+  tarjan                 the proved model `tarjan` of `scc_decomposition` (Model/Tarjan.lean, `tarjan_correct`) is run on the iteration
+                         orders of `G.N` / `G.incoming[v]` of every intercepted graph (recorded when `_unary_graph()` returns, i.e. before
+                         the call computes `blocks`) and must emit the real blocks: same components, same order.
   has_unary_cycle        the real method on the input and on both outputs vs the mirror model `hasUnaryCycle` on the real
                          blocks, and vs the specification predicate `noUnaryCycle` (they may differ only where a key of the
                          graph cancelled to zero, which the driver reports).
@@ -33,7 +36,7 @@ from harness import common, gen
 
 STAGES = ["separate_terminals", "binarize", "separate_start", "push_null", "trim", "cotrim", "unaryremove", "unfold",
           "unarycycleremove", "unarycycleremove_full", "ucycle_pred"]
-UCYCLE = ("unarycycleremove", "unarycycleremove_full", "ucycle_pred")
+UCYCLE = ("unarycycleremove", "unarycycleremove_full", "ucycle_pred", "tarjan")
 PUBLIC = ["trim", "cotrim", "binarize", "separate_start", "separate_terminals", "nullaryremove", "nullaryremove_nb",
           "nullaryremove_nt", "unaryremove", "unarycycleremove", "unarycycleremove_nt", "cnf", "rename", "rename0", "renumber", "unfold"]
 
@@ -54,6 +57,8 @@ def _spy_unary_graph(g, f):
     def spy():
         G = orig()
         seen.append(G)
+        # the iteration orders Tarjan is going to see in this very call (the graph is fresh: `blocks` has not run yet)
+        G._tj_orders = common.tarjan_observe(G)
         return G
     g._unary_graph = spy  # instance attribute shadows the method during this call only
     try:
@@ -78,6 +83,7 @@ def ucycle_steps(steps, inp, R, where):
         return
     steps.append({"name": "ucycle_pred", "where": where, "input": inj, "params": {"bl": huc_bl}, "has_unary_cycle": bool(huc),
                   "of": "input"})
+    steps.append({"name": "tarjan", "where": where, "of": "has_unary_cycle(input)", "orders": seen[0]._tj_orders, "blocks": huc_bl})
     for trim in (False, True):
         c0 = _cfg._gen_nt.i
         try:
@@ -100,6 +106,10 @@ def ucycle_steps(steps, inp, R, where):
                       "params": {"bl": [b[0] for b in blocks], "trim": trim}, "graph": graph})
         steps.append({"name": "ucycle_pred", "where": where, "input": outj, "params": {"bl": obl}, "has_unary_cycle": bool(ohuc),
                       "of": f"unarycycleremove(trim={trim})"})
+        steps.append({"name": "tarjan", "where": where, "of": f"unarycycleremove(trim={trim})", "orders": G._tj_orders,
+                      "blocks": [b[0] for b in blocks]})
+        steps.append({"name": "tarjan", "where": where, "of": f"has_unary_cycle(unarycycleremove(trim={trim}))", "orders": oseen[0]._tj_orders,
+                      "blocks": obl})
 
 
 def impl(case):
@@ -412,9 +422,11 @@ def run_common(ctx, which):
     nontrivial = set()
     shapes, tcount = {}, {}
     stats = {"structural_steps": 0, "semantic_pairs": 0, "shape_checks": 0, "unconverged": 0, "impl_exceptions": {}, "hashseed_disagreements": 0,
-             "ucycle_exact": 0, "ucycle_full": 0, "has_unary_cycle_checks": 0, "ucycle_cancelled_keys": 0, "ucycle_divergent": 0}
+             "ucycle_exact": 0, "ucycle_full": 0, "has_unary_cycle_checks": 0, "ucycle_cancelled_keys": 0, "ucycle_divergent": 0,
+             "tarjan_runs": 0, "tarjan_multi_node_blocks": 0}
     # ---- collect driver work
     base_items, pub_items, pub_index, step_ops, step_index, shape_ops, shape_index = [], [], [], [], [], [], []
+    tj_ops, tj_index = [], []
     for c in cases:
         shapes[c["shape"]] = shapes.get(c["shape"], 0) + 1
         base_items.append((c["cfg"], c["R"], c["xs"]))
@@ -454,6 +466,10 @@ def run_common(ctx, which):
         for hs, st in allsteps:
             if "exc" in st:
                 semantic.append(_viol(which, c, "stage:" + st["name"], None, {"exc": st["exc"], "msg": st.get("msg")}, hs))
+                continue
+            if st["name"] == "tarjan":
+                tj_ops.append(common.tarjan_op(st["orders"]))
+                tj_index.append((c, hs, st))
                 continue
             if st["name"] not in STAGES:
                 continue
@@ -501,6 +517,17 @@ def run_common(ctx, which):
                 if out["rules"]:
                     semantic.append(_viol(which, c, name, None, {"postcondition": "empty language trims to the empty rule set", "output": out}))
             nontrivial.add(hashlib.sha1(json.dumps([c["cfg"], c["R"], name], sort_keys=True).encode()).hexdigest())
+    # ---- structural: the proved model of `scc_decomposition` on the iteration orders observed inside the real calls
+    for (c, hs, st), m in zip(tj_index, ctx["lean"](tj_ops)):
+        evaluations += 1
+        stats["tarjan_runs"] += 1
+        ok, why = common.tarjan_same(m, st["blocks"])
+        if ok:
+            traces += 1
+            stats["tarjan_multi_node_blocks"] += sum(1 for b in st["blocks"] if len(b) > 1)
+        else:
+            structural.append({"op": "scc_decomposition", "what": f"_unary_graph().blocks in {st['of']} ({st['where']}): {why}", "orders": st["orders"],
+                               "model": m.get("blocks"), "impl": st["blocks"], "case_id": c["id"], "hashseed": hs, "case": c})
     # ---- structural correspondence of the mirror models
     tcount_uc = {}
     for (c, st), r in zip(step_index, ctx["lean"](step_ops)):
